@@ -15,7 +15,10 @@ FamLabel == UNION { { JoinWith(<<Lab(n), ab, com>>, DOT), JoinWith(<<ab, Lab(n),
                       JoinWith(<<ab, com, Lab(n)>>, DOT), Lab(n), Lab(n) \o <<DOT>>,
                       JoinWith(<<ab, Lab(n)>>, DOT) \o <<DOT>>,
                       JoinWith(<<Rep(49, n), com>>, DOT), JoinWith(<<Lab(n) \o <<HYPHEN>> \o ab, com>>, DOT),
-                      JoinWith(<<ab \o <<HYPHEN>> \o Lab(n), com>>, DOT) } : n \in 0..70 }
+                      JoinWith(<<ab \o <<HYPHEN>> \o Lab(n), com>>, DOT),
+                      JoinWith(<<Rep(USCORE, n), com>>, DOT), JoinWith(<<Lab(n) \o <<USCORE>>, com>>, DOT),
+                      JoinWith(<<ab, Lab(60) \o Rep(USCORE, n % 12)>>, DOT), JoinWith(<<<<USCORE>> \o Lab(n), com>>, DOT),
+                      JoinWith(<<Lab(n % 8) \o <<HYPHEN>> \o Lab(60), com>>, DOT) } : n \in 0..70 }
 \* total length 240..260 with 5 labels, with / without root dot, two dots at the end, last label numeric
 FamTotal == UNION { LET base == JoinWith(<<Lab(50), Lab(50), Lab(50), Lab(50), Lab(x)>>, DOT) IN
                     { base, base \o <<DOT>>, base \o <<DOT, DOT>>,
